@@ -1,7 +1,7 @@
 #!/bin/bash
 # usage: tools/confirm_free.sh <X-id> <k>      (round 4: free-choice seeds in /tmp/seed/<X-id>/out/<k>/)
 # like confirm_seed.sh, but the property is read from notes.md ("breaks: Cnn"); runs that property's quick check first and,
-# if it is silent, every other quick check
+# if it is silent, the checks named in FIRST (optional) and then every other quick check
 x=$1; k=$2; src=/tmp/seed/$x/out/$k
 [ -f $src/patch.diff ] || { echo "no patch in $src"; exit 2; }
 prop=$(grep -o -i -m1 'breaks: *C[0-9][0-9]' $src/notes.md | grep -o 'C[0-9][0-9]')
@@ -18,7 +18,7 @@ suite=$(PYTHONPATH=$wt /venv/bin/python -m pytest -q -p no:cacheprovider --timeo
 cd /verif
 caught=""; detail=""
 all="C01 C02 C03 C04 C05 C06 C07 C08 C09 C10 C11 C12 C13 C14 C15 C16 C17 C18 C19 C20"
-for id in $prop $(echo $all | tr ' ' '\n' | grep -v "^$prop$"); do
+for id in $prop ${FIRST:-} $(echo $all | tr ' ' '\n' | grep -v "^$prop$"); do
   [ "$id" = "C00" ] && continue
   out=$(VERIF_OUT=/tmp/mut/out_$name PYTHONPATH=$wt timeout 3000 /venv/bin/python -B check.py $id --tier quick 2>&1); rc=$?
   nviol=$(echo "$out" | grep -c '^VIOLATION')
